@@ -316,7 +316,6 @@ def prop_C05(run):
     rules_op.continuation_same_line(run)       # an expression ends with its line
     rules_op.keyword_whole_identifier(run)
     rules_op.lazy_operands_typed(run)          # both operands of || and && are tested for being booleans
-    rules_op.strlen_rule(run)                  # strlen counts the bytes of the encoded value (F73)
     rules_lim.lim4(run)
     run.rules_run += ["TAB-op tokens <-> precedence levels <-> evaluator primitives <-> num-bigint operations, literal radix tables", "LIM4 checked primitives (caps, zero tests)"]
 
